@@ -12,7 +12,7 @@ from ..engine import Space
 PROPERTY = "C18"
 LEVEL = "model_checking"
 VARIANTS = ["asan"]
-RULE = ("all histories of <=2 (quick) / <=3 (thorough) calls over 36 call kinds after create(full, 50 ms limit) on one instance, with a status "
+RULE = ("all histories of <=2 (quick) / <=3 (thorough) calls over 37 call kinds after create(full, 50 ms limit) on one instance, with a status "
         "probe after every call; two-instance interleavings of 2 calls each; creation variants (full/basic/empty); invalid handles (NULL, foreign "
         "memory, destroyed); states = (globals set, config loaded, instance age) contexts reached, transitions = API calls; non-trivial = history "
         "contains a failing or limit-hitting call before another call")
@@ -57,6 +57,9 @@ CALLS = {
     "pp-eval-endless-loop": ("p", 'A __EVAL(for "_i" from 0 to 1 step 0 do {}) B', 0, []),
     "pp-eval-endless-wait": ("p", "A __EVAL(waitUntil {false}) B", 0, []),
     "eval-endless-wait": ("s", '__EVAL(waitUntil {false}) diag_log "eew"', 0, ["eew"]),
+    # the log callback asks the SAME instance for another call while this one executes: refused with -4 (status says
+    # running), and the call in progress goes on undisturbed - its later diagnostics still carry ITS call data
+    "reenter-call": ("s", 'diag_log "r1"; diag_log "REENTER:call"; diag_log "r2"; 1 + "a"; diag_log "r3"', -6, ["r1", "REENTER:call", "r2"]),
     "unknown-type": ("x", "1", -5, []),
     "assembly-bad": ("a", "this is not assembly", -3, []),
     "assembly-bad-char": ("a", "push 1 endStatement; ? $", -3, []),
@@ -84,7 +87,7 @@ def gen_misc():
         for c in ("value", "log", "parse-error", "unknown-type", "pp-only"):
             yield ["create", [kind, c]]
     for hk in ("null", "foreign", "destroyed"):
-        for c in ("call", "status", "load_config"):
+        for c in ("call", "status", "load_config", "destroy"):
             yield ["invalid", [hk, c]]
     for a, b in itertools.product(["set-global", "log", "error-middle", "load-config", "late-logger", "assembly-bad", "assembly-ok", "parse-error", "pp-error", "load-config-bad"], repeat=2):
         yield ["two", [a, b]]
@@ -108,6 +111,9 @@ def judge_call(kind, step_res, status_res, ud, cd, gv_set, cfg_loaded, tag, case
     if status_res["code"] != 0:
         return [("C18|%s|not-idle-after-return|%s" % (kind, context), "%s: sqfvm_status is %d after call %s returned" % (tag, status_res["code"], kind), None, case)]
     cbs = step_res["cb"]
+    if kind == "reenter-call" and step_res.get("reenter") != [-4, 2]:
+        return [("C18|%s|reentrant-request-not-refused|%s" % (kind, context), "%s: sqfvm_call / sqfvm_status issued from the log callback while the call executes returned %r, documented -4 / 2" % (
+            tag, step_res.get("reenter")), None, case)]
     if ty != "cfg":
         for c in cbs:
             if c["ud"] != ud or c["cd"] != cd:
@@ -165,7 +171,7 @@ def check(ws, case):
         else:
             hk2 = hk
         st = {"call": {"op": "call", "h": 5, "type": "s", "text": "1", "cd": 1}, "status": {"op": "status", "h": 5},
-              "load_config": {"op": "load_config", "h": 5, "text": "class A {};"}}[c]
+              "load_config": {"op": "load_config", "h": 5, "text": "class A {};"}, "destroy": {"op": "destroy_raw", "h": 5}}[c]
         st["handle"] = hk2 if hk != "destroyed" else "null"
         steps.append(st)
     r = ws.call({"mode": "api", "fork": True, "timeout_ms": 30000, "tick_us": 20, "steps": steps}, variant="asan", max_alloc_mb=512)
